@@ -19,6 +19,8 @@ import (
 	"github.com/ory/fosite"
 	"github.com/ory/fosite/compose"
 	"github.com/ory/fosite/handler/openid"
+	"github.com/ory/fosite/handler/rfc8628"
+	"github.com/ory/fosite/storage"
 	"github.com/ory/fosite/token/hmac"
 	"github.com/ory/fosite/token/jwt"
 	"golang.org/x/crypto/bcrypt"
@@ -119,6 +121,7 @@ func newHist() *hist {
 	epoch := time.Now()
 	h := &hist{store: newRecStore(epoch), names: newNames(), epoch: epoch, full: map[string]string{}}
 	h.applyCfg(nil)
+	h.store.Users["peter"] = storage.MemoryUserRelation{Username: "peter", Password: userPassword}
 	h.foreign = &hmac.HMACStrategy{Config: &fosite.Config{GlobalSecret: []byte("another-secret-another-secret-another-secret")}}
 	return h
 }
@@ -162,7 +165,16 @@ func (h *hist) applyCfg(fs []string) {
 		cfg.EnforcePKCEForPublicClients = kvGet(fs, "pkcePublic") == "1"
 		cfg.EnablePKCEPlainChallengeMethod = kvGet(fs, "plain") == "1"
 		cfg.DisableRefreshTokenValidation = kvGet(fs, "noRtIntrospect") == "1"
+		if kvGet(fs, "deviceLife") != "" {
+			cfg.DeviceAndUserCodeLifespan = d("deviceLife")
+		}
+		if kvGet(fs, "parLife") != "" {
+			cfg.PushedAuthorizeContextLifespan = d("parLife")
+		}
+		cfg.IsPushedAuthorizeEnforced = kvGet(fs, "enforcePAR") == "1"
+		h.store.devMark = kvGet(fs, "devMark") == "1"
 	}
+	cfg.DeviceVerificationURL = "https://as.example/device"
 	h.cfg = cfg
 	h.provider = compose.ComposeAllEnabled(cfg, h.store, serverKey())
 }
@@ -303,6 +315,138 @@ func (h *hist) exec(line string) string {
 		} else {
 			out = "ok"
 		}
+	case "cc":
+		form := url.Values{"grant_type": {"client_credentials"}, "client_id": {f[1]}}
+		setIf(form, "scope", strings.Join(decList(f[3]), " "))
+		setIf(form, "audience", strings.Join(decList(f[4]), " "))
+		out = h.execTokenGranting(ctx, form, f[1], f[2])
+	case "password":
+		// password client cred user pwgiven userok scopes aud
+		form := url.Values{"grant_type": {"password"}, "client_id": {f[1]}}
+		setIf(form, "username", f[3])
+		if f[4] == "1" {
+			if f[5] == "1" {
+				form.Set("password", userPassword)
+			} else {
+				form.Set("password", "wrong-password")
+			}
+		}
+		setIf(form, "scope", strings.Join(decList(f[6]), " "))
+		setIf(form, "audience", strings.Join(decList(f[7]), " "))
+		out = h.execTokenGranting(ctx, form, f[1], f[2])
+	case "deviceAuthorize":
+		// deviceAuthorize client cred formClient scopes aud
+		form := url.Values{}
+		setIf(form, "client_id", f[3])
+		setIf(form, "scope", strings.Join(decList(f[4]), " "))
+		setIf(form, "audience", strings.Join(decList(f[5]), " "))
+		if len(form) == 0 {
+			form.Set("x", "")
+		}
+		r := h.tokenRequest(form, f[1], f[2])
+		dr, err := h.provider.NewDeviceRequest(ctx, r)
+		if err != nil {
+			out = "err " + errWire(err)
+			break
+		}
+		resp, err := h.provider.NewDeviceResponse(ctx, dr, h.newSession(""))
+		if err != nil {
+			out = "err " + errWire(err)
+			break
+		}
+		dc := resp.GetDeviceCode()
+		h.register(dc)
+		usig, _ := h.deviceStrategy().UserCodeSignature(ctx, resp.GetUserCode())
+		out = fmt.Sprintf("device dc=%s uc=%s exp=%d", ref('D', sigOf(dc)), ref('U', usig), resp.GetExpiresIn())
+	case "deviceDecide":
+		// deviceDecide dev verdict gs ga sub — the consent application acts directly on the stored request
+		sig := h.names.byName[f[1]]
+		d, ok := h.store.MemoryStore.DeviceAuths[sig]
+		if ok {
+			if f[2] == "accept" {
+				d.SetUserCodeState(fosite.UserCodeAccepted)
+				for _, sc := range decList(f[3]) {
+					d.GrantScope(sc)
+				}
+				for _, a := range decList(f[4]) {
+					d.GrantAudience(a)
+				}
+				if sess, ok := d.GetSession().(*openid.DefaultSession); ok {
+					sess.Subject = f[5]
+					if sess.Claims == nil {
+						sess.Claims = &jwt.IDTokenClaims{}
+					}
+					sess.Claims.Subject = f[5]
+					sess.Claims.Issuer = "https://as.example"
+				}
+				for _, sc := range decList(f[3]) {
+					if sc == "openid" {
+						_ = h.store.MemoryStore.CreateOpenIDConnectSession(ctx, sig, cloneRequest(d))
+						h.store.oidcOrder = addOrder(h.store.oidcOrder, sig)
+					}
+				}
+			} else {
+				d.SetUserCodeState(fosite.UserCodeRejected)
+			}
+		}
+		out = "ok"
+	case "devicePoll":
+		form := url.Values{"grant_type": {"urn:ietf:params:oauth:grant-type:device_code"}, "client_id": {f[1]}}
+		setIf(form, "device_code", h.present(f[3]))
+		out = h.execToken(ctx, form, f[1], f[2])
+	case "parPush":
+		// parPush client cred hasUri bodySecret rts redirect secure state nonce scopes aud challenge method
+		form := url.Values{"client_id": {f[1]}, "response_type": {strings.Join(decList(f[5]), " ")}}
+		setIf(form, "redirect_uri", f[6])
+		setIf(form, "state", f[8])
+		setIf(form, "nonce", f[9])
+		setIf(form, "scope", strings.Join(decList(f[10]), " "))
+		setIf(form, "audience", strings.Join(decList(f[11]), " "))
+		setIf(form, "code_challenge", challengeOf(f[12]))
+		setIf(form, "code_challenge_method", f[13])
+		if f[3] == "1" {
+			form.Set("request_uri", "urn:ietf:params:oauth:request_uri:whatever")
+		}
+		var r *http.Request
+		if f[4] == "1" {
+			// credentials in the body instead of HTTP Basic
+			secret := goodSecret
+			if f[2] != "1" {
+				secret = badSecret
+			}
+			form.Set("client_secret", secret)
+			r = httptest.NewRequest("POST", "https://as.example/par", strings.NewReader(form.Encode()))
+			r.Header.Set("Content-Type", "application/x-www-form-urlencoded")
+		} else {
+			r = h.tokenRequest(form, f[1], f[2])
+		}
+		ar, err := h.provider.NewPushedAuthorizeRequest(ctx, r)
+		if err != nil {
+			out = "err " + errWire(err)
+			break
+		}
+		resp, err := h.provider.NewPushedAuthorizeResponse(ctx, ar, h.newSession(""))
+		if err != nil {
+			out = "err " + errWire(err)
+			break
+		}
+		if resp.GetRequestURI() == "" {
+			out = "par uri=@P:0@ exp=0"
+			break
+		}
+		out = fmt.Sprintf("par uri=%s exp=%d", ref('P', resp.GetRequestURI()), resp.GetExpiresIn())
+	case "authorizePar":
+		// authorizePar client uri extra gs ga sub
+		uri := h.names.byName[f[2]]
+		if uri == "" {
+			uri = "urn:ietf:params:oauth:request_uri:unknown-" + f[2]
+		}
+		q := url.Values{"client_id": {f[1]}, "request_uri": {uri}}
+		for _, k := range decList(f[3]) {
+			q.Set(k, "x")
+		}
+		r := httptest.NewRequest("GET", "https://as.example/auth?"+q.Encode(), nil)
+		out = h.finishAuthorize(ctx, r, decList(f[4]), decList(f[5]), f[6])
 	case "introspect":
 		tu, ar, err := h.provider.IntrospectToken(ctx, h.present(f[1]), fosite.TokenUse(f[2]), &openid.DefaultSession{}, decList(f[3])...)
 		if err != nil {
@@ -317,7 +461,7 @@ func (h *hist) exec(line string) string {
 // taint lists everything handed to the storage layer during this operation that equals a usable
 // secret in cleartext: a client secret, a code verifier, or a complete code / token (C20).
 func (h *hist) taint(f []string) string {
-	secrets := map[string]string{goodSecret: "client_secret", badSecret: "client_secret"}
+	secrets := map[string]string{goodSecret: "client_secret", badSecret: "client_secret", userPassword: "user_password", "wrong-password": "user_password"}
 	switch f[0] {
 	case "redeem":
 		if len(f) > 5 && f[5] != "" {
@@ -334,6 +478,8 @@ func (h *hist) taint(f []string) string {
 				kind = "access_token"
 			case 'R':
 				kind = "refresh_token"
+			case 'D':
+				kind = "device_code"
 			}
 		}
 		secrets[full] = "complete_" + kind
@@ -358,11 +504,44 @@ func (h *hist) taint(f []string) string {
 	return encListS(out)
 }
 
+const userPassword = "secret"
+
+func (h *hist) deviceStrategy() *rfc8628.DefaultDeviceStrategy {
+	return compose.NewDeviceStrategy(h.cfg)
+}
+
+// execTokenGranting is execToken for the grants where the application grants the requested scopes
+// between NewAccessRequest and NewAccessResponse (client_credentials, password).
+func (h *hist) execTokenGranting(ctx context.Context, form url.Values, clientID, cred string) string {
+	return h.execTokenWith(ctx, form, clientID, cred, true)
+}
+
 func (h *hist) execToken(ctx context.Context, form url.Values, clientID, cred string) string {
+	return h.execTokenWith(ctx, form, clientID, cred, false)
+}
+
+func (h *hist) execTokenWith(ctx context.Context, form url.Values, clientID, cred string, grantRequested bool) string {
 	r := h.tokenRequest(form, clientID, cred)
 	ar, err := h.provider.NewAccessRequest(ctx, r, &openid.DefaultSession{})
 	if err != nil {
 		return "err " + errWire(err)
+	}
+	if grantRequested {
+		// what an application does between NewAccessRequest and NewAccessResponse: grant the requested
+		// scopes/audiences and complete the OpenID Connect claims with the authenticated subject
+		if sess, ok := ar.GetSession().(*openid.DefaultSession); ok && sess.Subject != "" {
+			if sess.Claims == nil {
+				sess.Claims = &jwt.IDTokenClaims{}
+			}
+			sess.Claims.Subject = sess.Subject
+			sess.Claims.Issuer = "https://as.example"
+		}
+		for _, sc := range ar.GetRequestedScopes() {
+			ar.GrantScope(sc)
+		}
+		for _, a := range ar.GetRequestedAudience() {
+			ar.GrantAudience(a)
+		}
 	}
 	resp, err := h.provider.NewAccessResponse(ctx, ar)
 	if err != nil {
@@ -397,17 +576,21 @@ func (h *hist) execAuthorize(ctx context.Context, f []string) string {
 	setIf(q, "code_challenge", challengeOf(f[12]))
 	setIf(q, "code_challenge_method", f[13])
 	r := httptest.NewRequest("GET", "https://as.example/auth?"+q.Encode(), nil)
+	return h.finishAuthorize(ctx, r, decList(f[9]), decList(f[10]), f[11])
+}
+
+func (h *hist) finishAuthorize(ctx context.Context, r *http.Request, gs, ga []string, sub string) string {
 	ar, err := h.provider.NewAuthorizeRequest(ctx, r)
 	if err != nil {
 		return "err " + errWire(err)
 	}
-	for _, s := range decList(f[9]) {
+	for _, s := range gs {
 		ar.GrantScope(s)
 	}
-	for _, a := range decList(f[10]) {
+	for _, a := range ga {
 		ar.GrantAudience(a)
 	}
-	resp, err := h.provider.NewAuthorizeResponse(ctx, ar, h.newSession(f[11]))
+	resp, err := h.provider.NewAuthorizeResponse(ctx, ar, h.newSession(sub))
 	if err != nil {
 		return "err " + errWire(err)
 	}
